@@ -420,6 +420,8 @@ package app
 //@   loop 1 invariant frozen_ro: forall i int :: in_range(i, frozenActiveNodes) ==> g_ro[frozenActiveNodes[i]]
 //@   loop 1 invariant frozen_io: forall i int :: in_range(i, frozenActiveNodes) ==> frozenActiveNodes[i] == oldMaster || g_ioStopped[frozenActiveNodes[i]]
 //@   loop 1 invariant frozen_len: len(frozenActiveNodes) <= rangeindex + 1
+//@   assert_at RunParallel#1 C19.off_before_freeze [C19]: resultof("stopActiveNodeOptimization", 1) == nil && callarg1 == activeNodes && e_Optimize == old(e_Optimize)
+//@   assert_at RunParallel#1 C19.off_no_enable [C19]: e_OptCreate == old(e_OptCreate)
 //@   assert_at CheckFailoverQuorum#1 C01.recount [C01]: callarg0 == old(activeNodes) && callarg1 == len(frozenActiveNodes) && frozenOK(frozenActiveNodes, activeNodes, oldMaster) && (forall x string :: contains(activeNodes, x) ==> contains(old(activeNodes), x)) && noPromoteEffects() && e_ChangeMaster == old(e_ChangeMaster)
 //@   assert_at AcquireLock#1 C01.lock1 [C01,C03]: resultof("CheckFailoverQuorum", 1) == nil
 //@   assert_at getNodePositions#1 C01.positions_of_frozen [C01]: callarg0 == frozenActiveNodes && resultof("AcquireLock", 1)
@@ -445,3 +447,58 @@ package app
 //@   ensures C06.opt_switchkeys [C06,C19]: e_CreateSwitch == old(e_CreateSwitch) && e_SetSwitch == old(e_SetSwitch) && e_SetLastSwitch == old(e_SetLastSwitch) && e_SetLastRejected <= old(e_SetLastRejected) + 1
 //@   ensures C06.opt_rejected [C06,C19]: e_SetLastRejected > old(e_SetLastRejected) ==> result != nil
 //@   ensures C06.opt_nopromote [C06,C01,C19]: noPromoteEffects() && e_ChangeMaster == old(e_ChangeMaster) && g_ro == old(g_ro) && g_sro == old(g_sro)
+
+// ---- C08: lost coordination service ------------------------------------------------------------------
+
+//@ define disconnectedSafeFrame(h string) = e_SetWritable == old(e_SetWritable) && e_ChangeMaster == old(e_ChangeMaster) && e_ResetSlaveAll == old(e_ResetSlaveAll) && e_SetOnline == old(e_SetOnline) && e_StartSlave == old(e_StartSlave) && e_StartIO == old(e_StartIO) && e_SemiSyncSetMaster == old(e_SemiSyncSetMaster) && e_SemiSyncSetSlave == old(e_SemiSyncSetSlave) && e_SetMaster == old(e_SetMaster) && e_SetActive == old(e_SetActive) && e_CreateSwitch == old(e_CreateSwitch) && (forall x string :: x != h ==> touched[x] == old(touched)[x])
+
+//@ func (*app.App).stopReplicationOnMaster
+//@   requires nonnil [safety]: masterNode != nil
+//@   ensures C08.stop_ok [C08,C10]: result == nil ==> g_offline[masterNode.host] && !g_ssMaster[masterNode.host] && !g_ssSlave[masterNode.host]
+//@   ensures C08.stop_order [C08,C10]: e_SemiSyncDisable > old(e_SemiSyncDisable) ==> resultof("SetOffline", 1) == nil
+//@   ensures C08.stop_frame [C08,C10]: disconnectedSafeFrame(masterNode.host) && e_SetReadOnly == old(e_SetReadOnly) && e_SetOffline == old(e_SetOffline) + 1
+
+//@ func (*app.App).checkHAReplicasRunning$1
+//@   ensures C08.probe_pure [C08]: tick == old(tick) && touched == old(touched)
+//@   assert_at return#* C08.probe_good [C08]: result == nil ==> resultof("ReplicaStatusWithTimeout", 1, 1) == nil && status != nil && resultof("ReplicationRunning", 1) && resultof("GetMasterHost", 1) == local.host && (app.config.SemiSync ==> resultof("SemiSyncStatus", 1, 1) == nil && ssstatus.SlaveEnabled != 0)
+
+//@ func (*app.App).checkHAReplicasRunning
+//@   requires nonnil [safety]: local != nil
+//@   loop 1 invariant good: availableReplicas == count(k string in visited :: results[k] == nil)
+//@   loop 1 invariant unreach: unreachableReplicas == count(k string in visited :: results[k] != nil && errIs(results[k], context.DeadlineExceeded))
+//@   loop 1 invariant quiet: tick == old(tick) && touched == old(touched)
+//@   ensures C08.pure [C08]: touched == old(touched) && e_SetReadOnly == old(e_SetReadOnly)
+//@   assert_at return#* C08.enough_semisync [C08]: app.config.SemiSync ==> (result0 <==> resultof("SemiSyncStatus", 1, 1) == nil && count(k string in dom(results) :: results[k] == nil) >= status.WaitSlaveCount)
+//@   assert_at return#* C08.enough_async [C08]: !app.config.SemiSync ==> (result0 <==> count(k string in dom(results) :: results[k] == nil) >= len(resultof("HANodeHosts", 3)) - 1)
+//@   assert_at return#* C08.unreach [C08]: result1 <==> count(k string in dom(results) :: results[k] != nil && errIs(results[k], context.DeadlineExceeded)) > 0
+//@   assert_at RunParallel#1 C08.probe_all_ha [C08]: callarg1 == resultof("HANodeHosts", 1)
+
+//@ func (*app.App).stateLost
+//@   ensures C08.connected [C08]: resultof("IsConnected", 1) ==> result == stateCandidate && mysqlUntouched()
+//@   ensures C08.frame [C08]: disconnectedSafeFrame(resultof("Local", 1).host)
+//@   ensures C08.stays_lost [C08]: !resultof("IsConnected", 1) ==> result == stateLost
+//@   assert_at return#* C08.untouched_cases [C08]: !reached("checkHAReplicasRunning", 1) ==> mysqlUntouched()
+//@   assert_at checkHAReplicasRunning#1 C08.check_conditions [C08]: !resultof("IsConnected", 1) && len(resultof("HANodeHosts", 1)) != 1 && resultof("IsHAHost", 1) && !app.config.DisableSetReadonlyOnLost && callarg0 == node
+//@   assert_at return#* C08.live_master [C08]: reached("checkHAReplicasRunning", 1) && localNodeState.IsMaster && replRunning ==> mysqlUntouched()
+//@   assert_at return#* C08.postpone [C08]: reached("time.Since", 1) && resultof("time.Since", 1) <= app.config.InactivationDelay ==> mysqlUntouched()
+//@   assert_at time.Since#1 C08.postpone_only_unreachable [C08]: hasUnreachRepl && !(localNodeState.IsMaster && replRunning) && app.t.m[ZKHALost][node.host] != 0 && (old(app.t.m[ZKHALost][node.host]) != 0 ==> app.t.m[ZKHALost][node.host] == old(app.t.m[ZKHALost][node.host]))
+//@   assert_at return#* C08.fence_attempted [C08]: reached("checkHAReplicasRunning", 1) && !(localNodeState.IsMaster && replRunning) && !(reached("time.Since", 1) && resultof("time.Since", 1) <= app.config.InactivationDelay) ==> e_SetReadOnly >= old(e_SetReadOnly) + 1
+//@   assert_at SetReadOnly#1 C08.replica_fence [C08]: !localNodeState.IsMaster && callrecv == node && callarg0 == true
+//@   assert_at SetReadOnlyWithForce#1 C08.master_fence [C08]: localNodeState.IsMaster && callrecv == node && callarg1 == true
+//@   assert_at stopReplicationOnMaster#1 C08.escalation [C08]: localNodeState.IsMaster && isBlocked && resultof("IsWaitingSemiSyncAck", 1, 1) == nil && callarg0 == node && (errIs(resultof("SetReadOnlyWithForce", 1), context.DeadlineExceeded) || (resultof("errors.As", 1) && merr.Number == 1205))
+//@   assert_at SetReadOnlyWithForce#2 C08.refence [C08]: resultof("stopReplicationOnMaster", 1) == nil && callrecv == node && callarg1 == true
+
+// ---- C19: optimisation is off before the freeze ---------------------------------------------------------
+
+//@ func app.convertNodesToReplicationControllers
+//@   loop 1 invariant idx: -1 <= rangeindex && rangeindex < len(nodes)
+//@   loop 1 invariant len: len(ifaceNodes) == rangeindex + 1
+//@   loop 1 invariant elems: forall i int :: 0 <= i && i <= rangeindex ==> unbox(ifaceNodes[i], "*mysql.Node") == nodes[i]
+//@   ensures C19.convert [C19]: len(result) == len(nodes) && (forall i int :: in_range(i, nodes) ==> unbox(result[i], "*mysql.Node") == nodes[i])
+
+//@ func (*app.App).stopActiveNodeOptimization
+//@   loop 1 invariant idx: -1 <= rangeindex && rangeindex < len(activeNodes)
+//@   loop 1 invariant len: len(nodes) == rangeindex + 1
+//@   loop 1 invariant quiet: tick == old(tick)
+//@   ensures C19.stop_active_frame [C19]: e_OptCreate == old(e_OptCreate) && e_Optimize == old(e_Optimize) && (forall h string :: d_optReg[h] ==> old(d_optReg)[h]) && noPromoteEffects() && g_ro == old(g_ro)
+//@   assert_at DisableAll#1 C19.stop_active_args [C19]: len(callarg1) == len(activeNodes)
